@@ -481,3 +481,37 @@ fn from_data() {
 
     assert_eq!(table, table2);
 }
+
+#[cfg(ruzstd_verif)]
+pub mod verif {
+    use super::{HuffmanEncoder, HuffmanTable};
+    use crate::bit_io::BitWriter;
+    use alloc::vec::Vec;
+    pub fn codes_from_counts(counts: &[usize]) -> Vec<(u32, u8)> {
+        HuffmanTable::build_from_counts(counts).codes
+    }
+    pub fn codes_from_weights(weights: &[usize]) -> Vec<(u32, u8)> {
+        HuffmanTable::build_from_weights(weights).codes
+    }
+    pub fn distribute_weights(amount: usize) -> Vec<usize> {
+        super::distribute_weights(amount)
+    }
+    pub fn shape(amount: usize) -> Vec<usize> {
+        let mut weights = super::distribute_weights(amount);
+        let limit = weights.len().ilog2() as usize + 2;
+        super::redistribute_weights(&mut weights, limit);
+        weights
+    }
+    /// table description + literals in one or four streams, as `compress_literals` emits them
+    pub fn encode(data: &[u8], four_streams: bool) -> Vec<u8> {
+        let table = HuffmanTable::build_from_data(data);
+        let mut writer = BitWriter::new();
+        let mut enc = HuffmanEncoder::new(&table, &mut writer);
+        if four_streams {
+            enc.encode4x(data, true);
+        } else {
+            enc.encode(data, true);
+        }
+        writer.dump()
+    }
+}
